@@ -184,16 +184,16 @@ CLAIMS = {
              "lcd_selection (first maximal entry), lcdlist_roundtrip/complete, warning_logic. Tie: translator (DEFAULT_ARCHS, 100-line "
              "threshold, symbols) + byte-for-byte comparison of real Frontend / osaca.inspect text with the model renderer and of "
              "full_analysis_dict with the model dict; oracle: parse the real report back and compare with the real dict. "
-             "End to end (Model/EndToEnd: analyseX86 = parse file text -> roles -> lookup/composition -> selection -> graph -> CP/LCD -> "
-             "sums -> report, all inside the model; Props/EndToEnd, 36 theorems for all files/models/options): e2e_factors, "
+             "End to end (Model/EndToEnd: analyse isa, for x86 AND AArch64 = parse file text -> roles -> lookup/composition -> selection -> graph -> CP/LCD -> "
+             "sums -> report, all inside the model; Props/EndToEnd (38, ISA-generic) + Props/EndToEndA64 (23 instances), for all files/models/options: e2e_factors, "
              "e2e_report_wf + e2e_report_roundtrip (the hypotheses of report_roundtrip discharged for the pipeline's own output), "
              "e2e_per_line_local, e2e_unknown_isolated (C08's last clause at file level), e2e_noise_transparent_text (C11 at text level); "
-             "tied by level 3: the real command line under --fixed vs the driver's e2e.x86 on the same file text and model YAML, "
-             "whole analysis at 1e-9 and report text byte for byte (synthetic models + zen2/spr).",
+             "tied by level 3: the real command line under --fixed vs the driver's e2e.x86 / e2e.a64 on the same file text and model YAML, "
+             "whole analysis at 1e-9 and report text byte for byte (synthetic models + zen2/spr/tx2/a64fx).",
         design="5/C13 + notes/C13.md + notes/EndToEnd.md",
         note=COMMON_NOTE + "Not modelled: detect_ISA, header/symbol-map blocks (tied by text comparison only); totals >= 1000 in a "
-             "4-wide column are read as tokens. End-to-end model: x86 only, --fixed only (the balancer is relational, C01); AArch64 is "
-             "composed up to Pipeline (C11Pipeline) with per-instruction data as inputs.",
+             "4-wide column are read as tokens. End-to-end model: both ISAs, --fixed only (the balancer is relational, C01); parser "
+             "outputs outside the glue's domain are listed in notes/EndToEnd.md.",
         technique="Lean 4 proof (formatter/parser round trip by induction over cells) + byte-exact differential correspondence",
     ),
     "C09": dict(
